@@ -143,5 +143,175 @@ theorem add_hasVal {s1 s2 : Bool} {m1 m2 : Nat} {e1 e2 ka kb : Int}
   rw [hsum] at this
   exact this
 
+/-! ### the fractional part -/
+
+theorem ceilDiv_cases (m d : Nat) (hd : 0 < d) :
+    (m + d - 1) / d = if m % d = 0 then m / d else m / d + 1 := by
+  have hm := Nat.div_add_mod m d
+  generalize hq : m / d = q at *
+  generalize hr : m % d = r at *
+  have hrd : r < d := by rw [← hr]; exact Nat.mod_lt _ hd
+  by_cases h0 : r = 0
+  · rw [if_pos h0]
+    have : m + d - 1 = d * q + (d - 1) := by omega
+    rw [this, Nat.mul_add_div hd, Nat.div_eq_of_lt (by omega), Nat.add_zero]
+  · rw [if_neg h0]
+    have : m + d - 1 = d * (q + 1) + (r - 1) := by rw [Nat.mul_add]; omega
+    rw [this, Nat.mul_add_div hd, Nat.div_eq_of_lt (by omega)]
+
+/-- numerator of the fractional part `f − floor f`, in units of `2^e` (for `e < 0`) -/
+def fracNum (s : Bool) (m : Nat) (e : Int) : Nat :=
+  if s then (pow2 (-e) - m % pow2 (-e)) % pow2 (-e) else m % pow2 (-e)
+
+theorem fracNum_lt (s : Bool) (m : Nat) (e : Int) : fracNum s m e < pow2 (-e) := by
+  unfold fracNum; split <;> exact Nat.mod_lt _ (pow2_pos _)
+
+theorem fracNum_eq_zero_iff (s : Bool) (m : Nat) (e : Int) :
+    fracNum s m e = 0 ↔ m % pow2 (-e) = 0 := by
+  have hd := pow2_pos (-e)
+  have hr := Nat.mod_lt m hd
+  unfold fracNum
+  cases s
+  · simp
+  · simp only [if_true]
+    by_cases h0 : m % pow2 (-e) = 0
+    · rw [h0]; simp
+    · rw [Nat.mod_eq_of_lt (by omega)]; omega
+
+theorem fracNum_spec (s : Bool) (m : Nat) (e : Int) (he : e < 0) :
+    smant s m - floorInt s m e * (pow2 (-e) : Nat) = (fracNum s m e : Nat) := by
+  have hd := pow2_pos (-e)
+  have hm : m / pow2 (-e) * pow2 (-e) + m % pow2 (-e) = m := by
+    rw [Nat.mul_comm]; exact Nat.div_add_mod m (pow2 (-e))
+  have hr := Nat.mod_lt m hd
+  unfold floorInt fracNum
+  rw [if_neg (by omega)]
+  cases s
+  · simp only [smant_false, Bool.false_eq_true, if_false]
+    generalize pow2 (-e) = d at *
+    generalize m / d = q at *
+    generalize m % d = r at *
+    subst hm; push_cast; omega
+  · simp only [smant_true, if_true]
+    rw [ceilDiv_cases m _ hd]
+    generalize pow2 (-e) = d at *
+    generalize m / d = q at *
+    generalize m % d = r at *
+    by_cases h0 : r = 0
+    · subst h0; subst hm; simp [Int.neg_mul]
+    · rw [if_neg h0, Nat.mod_eq_of_lt (by omega)]
+      subst hm; push_cast
+      rw [Int.natCast_sub (by omega)]
+      simp [Int.add_mul, Int.neg_mul]; omega
+/-! ### `floor` is exact -/
+
+theorem roundInt_zero_scale (k : Int) (z : Bool) (hk : k ≠ 0) : roundInt k 0 z = ofInt k := by
+  unfold ofInt roundInt; rw [if_neg hk, if_neg hk]
+
+theorem floorInt_natAbs_le (s : Bool) (m : Nat) (e : Int) (he : e < 0) :
+    (floorInt s m e).natAbs ≤ m / 2 + 1 := by
+  have hd : 2 ≤ pow2 (-e) := by
+    have : pow2 1 ≤ pow2 (-e) := pow2_le_pow2 (by omega)
+    exact this
+  have hq : m / pow2 (-e) ≤ m / 2 := Nat.div_le_div_left hd (by decide)
+  unfold floorInt
+  rw [if_neg (by omega)]
+  cases s
+  · simp only [Bool.false_eq_true, if_false, Int.natAbs_natCast]; omega
+  · simp only [if_true, Int.natAbs_neg, Int.natAbs_natCast]
+    rw [ceilDiv_cases m _ (by omega)]
+    split <;> omega
+
+theorem floor_hasVal {s : Bool} {m : Nat} {e : Int} (hc : Canon (fin s m e)) (he : e < 0) :
+    ∃ sF mF eF, floor (fin s m e) = fin sF mF eF ∧ Canon (fin sF mF eF) ∧
+      HasVal (fin sF mF eF) (floorInt s m e) 0 := by
+  have hfl : floor (fin s m e) = roundInt (floorInt s m e) 0 s := by
+    simp only [floor]; rw [if_neg (by omega)]
+  rw [hfl]
+  by_cases hk : floorInt s m e = 0
+  · rw [hk]
+    exact ⟨s, 0, eMin, by simp [roundInt], by rw [canon_fin]; decide, hasVal_zero s 0⟩
+  · rw [roundInt_zero_scale _ _ hk]
+    have hb : (floorInt s m e).natAbs ≤ two53 := by
+      have := floorInt_natAbs_le s m e he
+      have hm : m < two53 := hc.1
+      simp only [two53] at *; omega
+    obtain ⟨hv, hcan⟩ := ofInt_hasVal hb
+    cases hF : ofInt (floorInt s m e) with
+    | nan => rw [hF] at hv; exact absurd hv (by simp [HasVal])
+    | inf b => rw [hF] at hv; exact absurd hv (by simp [HasVal])
+    | fin sF mF eF => rw [hF] at hv hcan; exact ⟨sF, mF, eF, rfl, hcan, hv⟩
+
+/-! ### `f - floor f` is exact whenever its numerator fits in 53 bits -/
+
+theorem hasVal_neg {s : Bool} {m : Nat} {e k K : Int} (h : HasVal (fin s m e) k K) :
+    HasVal (fin (!s) m e) (-k) K := by
+  rw [hasVal_fin] at h ⊢
+  rw [smant_not, Int.neg_mul, h, Int.neg_mul]
+
+theorem hasVal_abs {s : Bool} {m : Nat} {e k K : Int} (h : HasVal (fin s m e) k K) (hk : 0 ≤ k) :
+    HasVal (fin false m e) k K := by
+  rw [hasVal_fin] at h ⊢
+  cases s
+  · exact h
+  · have hp : (0 : Int) < (pow2 (e - K) : Nat) := by have := pow2_pos (e - K); omega
+    have hq : (0 : Int) ≤ k * (pow2 (K - e) : Nat) := Int.mul_nonneg hk (by omega)
+    rw [smant_true] at h
+    have hm : (m : Int) * (pow2 (e - K) : Nat) ≤ 0 := by
+      have : -(m : Int) * (pow2 (e - K) : Nat) = -((m : Int) * (pow2 (e - K) : Nat)) :=
+        Int.neg_mul _ _
+      omega
+    have hm0 : m = 0 := by
+      rcases Nat.eq_zero_or_pos m with h0 | h0
+      · exact h0
+      · have : (0 : Int) < (m : Int) * (pow2 (e - K) : Nat) := Int.mul_pos (by omega) hp
+        omega
+    subst hm0
+    rw [smant_false]
+    simp only [Int.natCast_zero, Int.neg_zero, Int.zero_mul] at h ⊢
+    exact h
+
+theorem sub_floor_hasVal {s : Bool} {m : Nat} {e : Int} (hc : Canon (fin s m e)) (he : e < 0)
+    (hk : fracNum s m e < two53) :
+    ∃ sR mR eR, sub (fin s m e) (floor (fin s m e)) = fin sR mR eR ∧
+      HasVal (fin sR mR eR) ((fracNum s m e : Nat) * (pow2 (e - eMin) : Nat)) eMin := by
+  obtain ⟨sF, mF, eF, hF, hcF, hvF⟩ := floor_hasVal hc he
+  rw [hF]
+  have hce := hc; rw [canon_fin] at hce
+  have hcFe := hcF; rw [canon_fin] at hcFe
+  have h1 : eMin ≤ e := hce.2.1
+  have h2 : eMin ≤ eF := hcFe.2.1
+  have ha := hasVal_rescale (hasVal_self s m e) h1
+  have hb := hasVal_rescale (hasVal_neg hvF) (by decide : eMin ≤ 0)
+  have hsplit : pow2 (0 - eMin) = pow2 (-e) * pow2 (e - eMin) := by
+    have := pow2_sub_split (a := 0) (b := e) (c := eMin) h1 (by omega)
+    rw [Int.zero_sub e] at this; exact this
+  have hsum : smant s m * (pow2 (e - eMin) : Nat) + -floorInt s m e * (pow2 (0 - eMin) : Nat) =
+      (fracNum s m e : Nat) * (pow2 (e - eMin) : Nat) := by
+    rw [← fracNum_spec s m e he, hsplit]
+    simp only [Int.natCast_mul, Int.sub_mul, Int.neg_mul, Int.mul_assoc]
+    omega
+  have hpos : (0 : Int) < (pow2 (e - eMin) : Nat) := by have := pow2_pos (e - eMin); omega
+  have hnn : (0 : Int) ≤ (fracNum s m e : Nat) * (pow2 (e - eMin) : Nat) :=
+    Int.mul_nonneg (by omega) (by omega)
+  have := add_hasVal (s1 := s) (s2 := !sF) (m1 := m) (m2 := mF) (e1 := e) (e2 := eF) h1 h2 ha hb (by
+    rw [hsum]
+    intro hne
+    have hf0 : fracNum s m e ≠ 0 := by
+      intro h0; apply hne; rw [h0]; simp
+    obtain ⟨m', e', hc', hv'⟩ := representable_small false hf0 hk h1 hce.2.2.1
+    refine ⟨m', e', ?_, ?_⟩
+    · have : decide ((fracNum s m e : Nat) * (pow2 (e - eMin) : Nat) < (0 : Int)) = false := by
+        simp only [decide_eq_false_iff_not]; omega
+      rw [this]; exact hc'
+    · have : ((fracNum s m e : Nat) * (pow2 (e - eMin) : Nat) : Int).natAbs =
+          fracNum s m e * pow2 (e - eMin) := by
+        rw [Int.natAbs_mul, Int.natAbs_natCast, Int.natAbs_natCast]
+      rw [this]
+      exact (sameVal_shift h1).2 hv')
+  rw [hsum] at this
+  obtain ⟨sR, mR, eR, hR, -, hvR⟩ := this
+  exact ⟨sR, mR, eR, hR, hvR⟩
+
 end F64
 end Ag
